@@ -1,10 +1,10 @@
 ID = 'C18'
 TITLE = 'Annotation and k-mer counting equal direct enumeration'
 CONTRACT_MODULES = ['contracts.utils_c', 'contracts.annotate_c']
-FUNCTIONS = ['tangermeme.annotate.count_annotations', 'tangermeme.annotate.pairwise_annotations_spacing#pair-body']
+FUNCTIONS = ['tangermeme.annotate.count_annotations', 'tangermeme.annotate.pairwise_annotations_spacing#pair-body', 'tangermeme.annotate.pairwise_annotations#example-pairs', 'tangermeme.annotate.pairwise_annotations_spacing#example-pairs']
 BOUNDED = 'bounded.C18'
 BOUNDED_BUDGET = {'quick': 60, 'thorough': 600}
 LEVEL = 'other'
-EXPLANATION = ('deductive: count_annotations entry (e,a) = number of rows (scatter_add / max axioms, mixed-radix index equivalence, dim=0/1, shape rejection, tensor and tuple input); pair body of pairwise_annotations_spacing as a fragment contract (increments exactly (left,right,d) for 0<=d<max_distance, mirrored iff symmetric and distinct, nothing otherwise, no wrapped index). bounded: pair enumeration exactly once, pairwise_annotations, kmers against brute-force counting')
-ASSUMPTIONS = ['scatter_add_: y[k] += sum_r [idx_r == k] src_r; tensor.max(dim) bounds every element and is attained (axioms)', 'pair enumeration (each unordered pair of rows of one example visited exactly once) is bounded, not proved']
+EXPLANATION = ('deductive: count_annotations entry (e,a) = number of rows (scatter_add / max axioms, mixed-radix index equivalence, dim=0/1, shape rejection, tensor and tuple input); pair body of pairwise_annotations_spacing as a fragment contract (increments exactly (left,right,d) for 0<=d<max_distance, mirrored iff symmetric and distinct, nothing otherwise, no wrapped index); pair enumeration of pairwise_annotations and of pairwise_annotations_spacing as fragment contracts over the two nested loops for an annotation list of any length m (loop invariants over the pair sums, sum_range_succ instances): y gains exactly the number of position pairs p<q<m with the given annotations (and gap), every pair once. bounded: grouping of rows by example, whole functions, kmers against brute-force counting')
+ASSUMPTIONS = ['scatter_add_: y[k] += sum_r [idx_r == k] src_r; tensor.max(dim) bounds every element and is attained (axioms)', 'grouping of the table rows into per-example lists (example_annotations) is bounded, not proved; the pair enumeration contract starts from an arbitrary per-example list']
 TRUSTED = []
